@@ -91,7 +91,9 @@ class CompiledValue(Value):
         return self.access_handle.get_qualified_names()
 
     def py__bool__(self):
-        return self.access_handle.py__bool__()
+        return self.access_handle.py__bool__(
+            safe=not self.inference_state.allow_unsafe_executions
+        )
 
     def is_class(self):
         return self.access_handle.is_class()
